@@ -249,6 +249,9 @@ fn handle(
                     }
                     rep.map("threads", &sc.threads.to_string());
                     rep.map("queue", &sc.queue.to_string());
+                    if sc.queue >= 1000 {
+                        rep.map("giant_queue_x_sets", &format!("queue>=1000:{}", if sc.sizes.len() > sc.queue { "more-sets-than-slots" } else if sc.sizes.len() > 1024 { "over-1024-sets" } else { "few-sets" }));
+                    }
                     if rep.want_sample() && entries.len() > 20 && entries.len() < 400 {
                         rep.sample(json!({"scenario": sc.describe(),
                             "log_head": entries.iter().take(40).map(|e| format!("t{} {:?}", e.thread, e.ev)).collect::<Vec<_>>(),
